@@ -499,6 +499,13 @@ func (fc *FuncCtx) formula0(v ssa.Value) *bddNode {
 				name := "ok:" + fc.AP(t)
 				return fc.A.atom(name, "ok", fc, t, []ssa.Value{t.X, t.Index}, fc.AP(t.X), fc.AP(t.Index))
 			}
+		case *ssa.Call:
+			// the boolean component of a side-effect-free helper's result (value, ok): case split over its returns
+			if isBoolType(x.Type()) {
+				if f, ok := fc.callResultGated(x, func(sub *FuncCtx, rv ssa.Value) *bddNode { return sub.Formula(rv) }); ok {
+					return f
+				}
+			}
 		}
 	}
 	name := "b:" + fc.AP(v)
